@@ -9,9 +9,9 @@ TraceLog == ndJsonDeserialize(IOEnv.TRACE)
 
 ResetTo(arg) ==
   /\ mode' = arg.mode
-  /\ max' = IF arg.mode = "ctx" THEN arg.max ELSE 0
-  /\ target' = (arg.mode = "ctx" /\ arg.target = 1)
-  /\ attached' = (arg.mode = "ctx" /\ arg.attached = 1)
+  /\ max' = IF arg.mode \in {"ctx", "stream"} THEN arg.max ELSE 0
+  /\ target' = (arg.mode = "stream" \/ (arg.mode = "ctx" /\ arg.target = 1))
+  /\ attached' = (arg.mode = "stream" \/ (arg.mode = "ctx" /\ arg.attached = 1))
   /\ own' = IF arg.mode = "ctx" THEN 1 ELSE 0
   /\ clen' = 0 /\ cval' = <<>> /\ handles' = [h \in 1..MaxH |-> <<>>]
   /\ reqs' = <<>> /\ ctr' = 0
@@ -32,16 +32,22 @@ Step(ev) ==
     [] ev.a = "drelease"  -> ReleaseHandle(ev.arg.h, ev.arg.tv)
     [] ev.a = "release"   -> ReleaseCtx(ev.arg.tv, Len(ev.obs.sends) > 0)
     [] ev.a = "addref"    -> AddRef
+    [] ev.a = "srequest"  -> StreamRequest(ev.arg.id, ev.arg.payload, ev.arg.act, ev.arg.data, ev.arg.hret)
+    [] ev.a = "slate"     -> StreamLate(ev.arg.data)
+    [] ev.a = "sanswer"   -> StreamAnswer(ev.arg.id, ev.arg.payload)
     [] OTHER              -> FALSE
 
 Matches(ev) ==
   LET e == obs'.exp IN
-  /\ e.ret = "any" \/ e.ret = ev.obs.ret
+  /\ "ret" \in DOMAIN e => (e.ret = "any" \/ e.ret = ev.obs.ret)
   /\ "sends" \in DOMAIN e => e.sends = ev.obs.sends
   /\ "armed" \in DOMAIN e => e.armed = ev.obs.armed
   /\ "intact" \in DOMAIN e => e.intact = ev.obs.intact
   /\ "buf" \in DOMAIN e => e.buf = ev.obs.buf
   /\ "id" \in DOMAIN e => e.id = ev.obs.id
+  /\ "seen" \in DOMAIN e => e.seen = ev.obs.seen
+  /\ "frames" \in DOMAIN e => e.frames = ev.obs.frames
+  /\ "r2" \in DOMAIN e => e.r2 = ev.obs.r2
 
 TraceInit ==
   /\ l = 1 /\ InitId
